@@ -462,7 +462,13 @@ func c12CheckOwnerRefShape(p *Program, fn *ssa.Function) (problems []string) {
 				problems = append(problems, f+" is not owner."+getter+"()")
 			}
 		}
-		// nested GroupKind{Group, Kind}
+		// GroupKind: a nested literal {Group: gvk.Group, Kind: gvk.Kind}, a GroupKind value built that
+		// way, or gvk.GroupKind() (apimachinery: exactly that pair) — gvk being GVKForObject(owner).
+		fromOwnerGVK := func(v ssa.Value) bool {
+			gc, idx := asCall(v)
+			return gc != nil && idx == 0 && isCallTo(gc.Common(), "sigs.k8s.io/controller-runtime/pkg/client/apiutil.GVKForObject") &&
+				len(gc.Common().Args) > 0 && p.sameValue(gc.Common().Args[0], owner)
+		}
 		u, _ := stripConv(rc.Results[0]).(*ssa.UnOp)
 		var lit *ssa.Alloc
 		if u != nil {
@@ -476,36 +482,26 @@ func c12CheckOwnerRefShape(p *Program, fn *ssa.Function) (problems []string) {
 					continue
 				}
 				for _, rr := range referrersOf(gk) {
-					sub, ok := rr.(*ssa.FieldAddr)
-					if !ok {
-						continue
-					}
-					name := fieldName(gk.Type(), sub.Field)
-					for _, rrr := range referrersOf(sub) {
-						st, ok := rrr.(*ssa.Store)
-						if !ok || st.Addr != ssa.Value(sub) {
+					switch x := rr.(type) {
+					case *ssa.FieldAddr:
+						name := fieldName(gk.Type(), x.Field)
+						for _, rrr := range referrersOf(x) {
+							st, ok := rrr.(*ssa.Store)
+							if !ok || st.Addr != ssa.Value(x) {
+								continue
+							}
+							if src, f, ok := p.c12FieldOfValue(st.Val); ok && f == name && fromOwnerGVK(src) {
+								got[name] = true
+							}
+						}
+					case *ssa.Store:
+						if x.Addr != ssa.Value(gk) {
 							continue
 						}
-						ld, ok := st.Val.(*ssa.UnOp)
-						if !ok {
-							continue
-						}
-						src, ok := ld.X.(*ssa.FieldAddr)
-						if !ok || fieldName(src.X.Type(), src.Field) != name {
-							continue
-						}
-						a, ok := src.X.(*ssa.Alloc)
-						if !ok {
-							continue
-						}
-						sts, known := p.storesReaching(a, ld)
-						if !known || len(sts) != 1 {
-							continue
-						}
-						gc, idx := asCall(sts[0].Val)
-						if gc != nil && idx == 0 && isCallTo(gc.Common(), "sigs.k8s.io/controller-runtime/pkg/client/apiutil.GVKForObject") &&
-							p.sameValue(gc.Common().Args[0], owner) {
-							got[name] = true
+						for name, part := range p.c12GroupKindParts(x.Val) {
+							if part.Field == name && fromOwnerGVK(part.Of) {
+								got[name] = true
+							}
 						}
 					}
 				}
@@ -521,6 +517,71 @@ func c12CheckOwnerRefShape(p *Program, fn *ssa.Function) (problems []string) {
 		problems = append(problems, "no successful return found")
 	}
 	return problems
+}
+
+// c12Part: "field Field of the struct value Of".
+type c12Part struct {
+	Of    ssa.Value
+	Field string
+}
+
+// c12FieldOfValue resolves v to "field f of the struct value src": a Field of an SSA value, or a load
+// of a field of a local variable that holds exactly one whole value there and is not written field by
+// field.
+func (p *Program) c12FieldOfValue(v ssa.Value) (src ssa.Value, f string, ok bool) {
+	switch x := stripConv(v).(type) {
+	case *ssa.Field:
+		return x.X, fieldName(x.X.Type(), x.Field), true
+	case *ssa.UnOp:
+		if x.Op != token.MUL {
+			return nil, "", false
+		}
+		fa, isFA := x.X.(*ssa.FieldAddr)
+		if !isFA {
+			return nil, "", false
+		}
+		a, isAlloc := fa.X.(*ssa.Alloc)
+		if !isAlloc {
+			return nil, "", false
+		}
+		for _, r := range referrersOf(a) {
+			if o, isF := r.(*ssa.FieldAddr); isF && o.Field == fa.Field && derivedAddrWritten(o) {
+				return nil, "", false
+			}
+		}
+		sts, known := p.storesReaching(a, x)
+		if !known || len(sts) != 1 {
+			return nil, "", false
+		}
+		return sts[0].Val, fieldName(a.Type(), fa.Field), true
+	}
+	return nil, "", false
+}
+
+// c12GroupKindParts resolves a schema.GroupKind value to where its Group and Kind come from:
+// gvk.GroupKind() is {Group: gvk.Group, Kind: gvk.Kind} (value-receiver helper of apimachinery), a
+// literal is read field by field. Fields that cannot be resolved are absent.
+func (p *Program) c12GroupKindParts(v ssa.Value) map[string]c12Part {
+	out := map[string]c12Part{}
+	if call, idx := asCall(v); call != nil {
+		if idx == -1 && calleeID(call.Common()) == "(k8s.io/apimachinery/pkg/runtime/schema.GroupVersionKind).GroupKind" && len(call.Common().Args) == 1 {
+			out["Group"] = c12Part{call.Common().Args[0], "Group"}
+			out["Kind"] = c12Part{call.Common().Args[0], "Kind"}
+		}
+		return out
+	}
+	fields, _, ok := compositeFields(v)
+	if !ok {
+		return out
+	}
+	for _, n := range []string{"Group", "Kind"} {
+		if fv := fields[n]; fv != nil {
+			if src, f, ok := p.c12FieldOfValue(fv); ok {
+				out[n] = c12Part{src, f}
+			}
+		}
+	}
+	return out
 }
 
 func c12r3(c *Ctx) {
